@@ -151,7 +151,7 @@ func init() {
 	core.Register(&core.Prop{
 		ID:    "C03",
 		Level: "exploration",
-		Rule: "Directed additions: a listing symlink in an append-only destination (it cannot be removed; only directories are announced then). hostile packet scripts = STAT sequence of a random tree (symlinks to outside sentinels, xattrs on symlinks, devices) with one mutation {path '..', '.', '', 'a/../..', '../x', absolute, unclean, duplicate, out of order, child of file/symlink, missing parent, hard link to unknown/later/escaping/non-file name, unsolicited DATA, DATA after terminator, backslash and newline names, huge sizes} or none, sent by a scripted sender over real pipes to a receiver process inside a chroot jail, x prior destinations full of symlinks (absolute and '..'-laden) to sentinels outside dest x {normal, merge, metadata-only}; everything outside dest (and dest's own directory entry) is snapshotted before and after (inode, mode, owner, mtime, ctime, bytes, xattrs). " +
+		Rule: "Half of the hybrid-mode scripts mirror a root-level symlink of the prior destination (same name, owner, target, size, time stamp, plus the directory bit) and announce children below it. Directed additions: a listing symlink in an append-only destination (it cannot be removed; only directories are announced then). hostile packet scripts = STAT sequence of a random tree (symlinks to outside sentinels, xattrs on symlinks, devices) with one mutation {path '..', '.', '', 'a/../..', '../x', absolute, unclean, duplicate, out of order, child of file/symlink, missing parent, hard link to unknown/later/escaping/non-file name, unsolicited DATA, DATA after terminator, backslash and newline names, huge sizes} or none, sent by a scripted sender over real pipes to a receiver process inside a chroot jail, x prior destinations full of symlinks (absolute and '..'-laden) to sentinels outside dest x {normal, merge, metadata-only}; everything outside dest (and dest's own directory entry) is snapshotted before and after (inode, mode, owner, mtime, ctime, bytes, xattrs). " +
 			"non-trivial = script with a malformation or with an entry colliding with an outward symlink of the prior destination; distinct by (script, prior, mode) fingerprint",
 		Assumptions: []string{"root, chroot(2) available", "no concurrent local attacker (TOCTOU races are out of scope)", "a receiver process crash counts as a failed receive call (counted separately)"},
 		Cases: func(tier string) int {
@@ -628,6 +628,34 @@ func c03Run(c *core.Ctx) *core.Result {
 		nm := core.Pick(R, []string{"hz", "hz", "a0", "e"})
 		tg := core.Pick(R, []string{outside + "/dir", outside + "/dir/sub", outside, "../../../outside/dir", up + rc + "/outside/dir", "../..", caseDir + "/work/p"})
 		add := []*types.Stat{{Path: nm, Mode: uint32(hm | 0755), Linkname: tg, ModTime: 1e18}}
+		if mr := core.NewRand(core.Mix(c.Seed, "C03-hybrid-mirror", c.Index)); mr.P(1, 2) {
+			// the hybrid entry mirrors a symlink the destination already has
+			// (same name, owner, target, size and time stamp, plus the
+			// directory bit): a comparison that takes the two for the same
+			// entry leaves the old symlink in place below the children
+			var cand []*tree.Entry
+			for i := range prior.Entries {
+				if pe := &prior.Entries[i]; pe.Type == tree.Symlink && tree.Parent(pe.Path) == "" {
+					cand = append(cand, pe)
+				}
+			}
+			if len(cand) > 0 {
+				pe := core.Pick(mr, cand)
+				nm = pe.Path
+				hm = os.ModeDir | os.ModeSymlink
+				ms := pe.Stat()
+				ms.Mode |= uint32(os.ModeDir)
+				add = []*types.Stat{ms}
+				keep := stats[:0]
+				for _, st := range stats {
+					if st.Path != nm && !strings.HasPrefix(st.Path, nm+"/") {
+						keep = append(keep, st)
+					}
+				}
+				stats = keep
+				r.Count("hybrid_entries_mirroring_a_destination_symlink", 1)
+			}
+		}
 		if hm&os.ModeDir != 0 {
 			add = append(add, fileStat(nm+"/a"), fileStat(nm+"/inner"), dirStat(nm+"/sub"), fileStat(nm+"/sub/a"), fileStat(nm+"/sub/deep"),
 				&types.Stat{Path: nm + "/top", Mode: uint32(os.ModeSymlink | 0777), Linkname: "x"})
